@@ -304,9 +304,6 @@ def check(case, ctx):
                 return fail("counts", gotc, dict(cnt))
             if sum(gotc.values()) != nrows:
                 return fail("count-sum", gotc, nrows)
-            counts = [r[-2] for r in got[1:]]
-            if counts != sorted(counts, reverse=True):
-                return fail("order", counts, "descending")
             vc = etl.valuecounter(codec.snapshot(tbl), *fields)
             if dict(vc) != dict(cnt):
                 return fail("valuecounter", dict(vc), dict(cnt))
